@@ -336,10 +336,7 @@ unsafe fn write_all_sub_paths(
             // Swap slash for null termination to make a valid path
             buf[ind] = NULL_BYTE;
 
-            return match rusl::unistd::mkdir(
-                UnixStr::from_bytes_unchecked(&buf[..=ind]),
-                Mode::from(0o755),
-            ) {
+            return match mkdir_or_exists(UnixStr::from_bytes_unchecked(&buf[..=ind])) {
                 // Successfully wrote, traverse down
                 Ok(()) => {
                     // Replace the null byte to make a valid path concatenation
@@ -349,10 +346,7 @@ unsafe fn write_all_sub_paths(
                         if buf[i] == b'/' {
                             // Swap slash for null termination to make a valid path
                             buf[i] = NULL_BYTE;
-                            rusl::unistd::mkdir(
-                                UnixStr::from_bytes_unchecked(&buf[..=i]),
-                                Mode::from(0o755),
-                            )?;
+                            mkdir_or_exists(UnixStr::from_bytes_unchecked(&buf[..=i]))?;
                             // Swap back to continue down
                             buf[i] = b'/';
                         }
@@ -362,11 +356,9 @@ unsafe fn write_all_sub_paths(
                         return Ok(());
                     }
                     // We know the actual length is len + 1 and null terminated, try write full
-                    rusl::unistd::mkdir(
-                        UnixStr::from_bytes_unchecked(core::slice::from_raw_parts(raw, len + 1)),
-                        Mode::from(0o755),
-                    )?;
-                    Ok(())
+                    mkdir_or_exists(UnixStr::from_bytes_unchecked(
+                        core::slice::from_raw_parts(raw, len + 1),
+                    ))
                 }
                 Err(e) => {
                     if let Some(code) = e.code {
@@ -376,8 +368,6 @@ unsafe fn write_all_sub_paths(
                             // previously replacing the slash with a null-byte
                             buf[ind] = b'/';
                             continue;
-                        } else if code == Errno::EEXIST {
-                            return Ok(());
                         }
                     }
                     Err(e)
@@ -386,7 +376,19 @@ unsafe fn write_all_sub_paths(
         }
         it += 1;
     }
-    Ok(())
+    // No separator past the first byte, the path is a single component
+    mkdir_or_exists(UnixStr::from_bytes_unchecked(
+        core::slice::from_raw_parts(raw, len + 1),
+    ))
+}
+
+/// Creates the directory, an already existing path is not an error
+#[inline]
+fn mkdir_or_exists(path: &UnixStr) -> core::result::Result<(), rusl::Error> {
+    match rusl::unistd::mkdir(path, Mode::from(0o755)) {
+        Err(e) if e.code == Some(Errno::EEXIST) => Ok(()),
+        res => res,
+    }
 }
 
 pub struct Directory(OwnedFd);
